@@ -1,5 +1,6 @@
 import Driver.Mlw
 import Driver.Fmt
+import Driver.Queue
 import Std.Data.HashMap
 import Std.Data.HashSet
 /-!
@@ -37,6 +38,8 @@ def dispatch (prop : String) (line : String) : Verdict :=
     | some "spy" => MlwE.runSpy prop f obsS
     | some "fmt" => FmtE.runFmt prop f obsS
     | some "std" => FmtE.runStd prop f obsS
+    | some "queue" => QueueE.runQueue prop f obsS
+    | some "qstress" => QueueE.runStress prop f obsS
     | _ => badCase
   | _ => badCase
 
